@@ -367,6 +367,28 @@ func TestVerifCodec(t *testing.T) {
 			emitD(append([]byte{byte(bl + 4), 3, 0, byte(ml)}, body[2:]...))
 		}
 	}
+	// short-topic coding (packets.EncodeShortTopic / DecodeShortTopic / IsShortTopic)
+	emitS := func(id uint16) {
+		name := pkts.DecodeShortTopic(id)
+		fmt.Fprintf(w, "S %d => %s %d %d\n", id, vhex([]byte(name)), pkts.EncodeShortTopic(name), vb(pkts.IsShortTopic(name)))
+	}
+	if thorough {
+		for i := 0; i < 65536; i++ {
+			emitS(uint16(i))
+		}
+	} else {
+		for _, i := range []int{0, 1, 0x7f, 0x80, 0xff, 0x100, 0x7fff, 0x8000, 0x80ff, 0xff80, 0xfffe, 0xffff, 0x2b23, 0x6162} {
+			emitS(uint16(i))
+		}
+		for i := 0; i < 3000; i++ {
+			emitS(uint16(r.Intn(65536)))
+		}
+	}
+	for i := 0; i < 300; i++ {
+		nm := vBytes(r, r.Intn(5))
+		fmt.Fprintf(w, "N %s => %d %s %d\n", vhex(nm), pkts.EncodeShortTopic(string(nm)),
+			vhex([]byte(pkts.DecodeShortTopic(pkts.EncodeShortTopic(string(nm))))), vb(pkts.IsShortTopic(string(nm))))
+	}
 	// 3. random noise
 	for i := 0; i < n; i++ {
 		l := r.Intn(14)
